@@ -12,7 +12,9 @@ covered by the shared rules C08.a/b (C04.d).
 Added in round 4: where the buffered meta tile rectangle is cut at the grid border the buffer of
 that edge shrinks by exactly the distance cut off (C04.i).
 Added in round 5: crop offsets are rounded to the nearest pixel (C04.j); the shared request template
-of a client is never written (C04.k)."""
+of a client is never written (C04.k).
+Added in round 6: meta tile bbox and pattern use the unclamped block (C04.l); pre-store filters run
+before the store on every path (C04.m)."""
 import ast
 
 from ..engine import rule, run_property
